@@ -128,6 +128,10 @@ func (w *world) Spawns(count int, componentIds ...ComponentId) []Entity {
 }
 
 func (w *world) Annihilate(entity Entity) {
+	if !w.entities.alive(entity) {
+		return
+	}
+
 	w.entities.recycle(entity)
 
 	w.archetypes.unbind(entity)
@@ -135,8 +139,6 @@ func (w *world) Annihilate(entity Entity) {
 
 func (w *world) Annihilates(entities []Entity) {
 	for _, entity := range entities {
-		w.entities.recycle(entity)
+		w.Annihilate(entity)
 	}
-
-	w.archetypes.unBindMany(entities)
 }
